@@ -461,6 +461,9 @@ class Coordinator(object):
 
         self._state = "[joining]"
         yield self.on_join_prepare()
+        if self._stopping:
+            # stop() cancelled us while the consumers were shutting down
+            return
         join_response = yield self.send_join_group_request()
         if not join_response or self._stopping:
             # join failed, we'll be called again after a small delay
